@@ -17,7 +17,7 @@ Handler `mem`: executable face of `Model/Mem.lean` for the C18 correspondence ch
              = processing order with cycles, deliveries to each sink with cycles, final image,
                number of requests of each port not processed
   mem amo <w> <type> <m> <a>                     reply: AMO_FUNS value
-An AMO whose len is neither 0 nor nb is outside the model: the request is rejected (`bad-op`).
+A request (read, write or AMO) may have any len: 0 = the full data width nb, else that many bytes (sub-word AMOs included).
 -/
 namespace PV.Driver.Mem
 open PV PV.Mem
@@ -34,9 +34,6 @@ def req? : List Sexp → Option Req
     let nb ← w.nat?
     let k ← kind? (← t.nat?)
     let len ← l.nat?
-    match k with
-    | .amo _ => if len != 0 && len != nb then none else pure ()
-    | _ => pure ()
     some ⟨k, ← o.nat?, ← a.nat?, len, ← d.nat?, nb⟩
   | _ => none
 
